@@ -176,6 +176,8 @@ def explore_body(ip, thunk, context_free=True):
             ip.assumptions_used |= sub.assumptions_used
             ip.inlined |= sub.inlined
             ip.contract_calls |= sub.contract_calls
+        if getattr(p, "unsure", False):
+            outer.unsure = True
         for ob in p.obligations:
             outer.obligations.append(ob)
         cond = z3.And(p.pc[base:]) if len(p.pc) > base else z3.BoolVal(True)
